@@ -12,7 +12,7 @@ import (
 )
 
 type vDriver struct {
-	Driver          // nil: any other method panics
+	Driver   // nil: any other method panics
 	executed []string
 	ops      *int // shared operation counter (statements and revision writes)
 	failAt   int  // operation index that fails (-1: none)
